@@ -22,7 +22,10 @@ EPS = sys.float_info.epsilon
 
 def check(tr, hist, k, where):
     win = hist[-k:]
-    xs = [F(x) for x in win]
+    xs = [F(float(x)) if isinstance(x, np.floating) else F(x) for x in win]
+    # values supplied as narrow NumPy floats: accuracy is demanded relative to the narrowest type in the window only
+    # (finite results are demanded whatever the type: the statistics of finite values are finite)
+    EPS = max([sys.float_info.epsilon] + [float(np.finfo(type(x)).eps) for x in win if isinstance(x, np.floating)])
     m, v = mean_stat(xs), var_stat(xs)
     scale = max([1.0] + [abs(float(x)) for x in win])
     maxdev = max(abs(float(x - m)) for x in xs)
@@ -119,6 +122,10 @@ def plan(tier):
         tasks.append(('readmask', k, 3 * k + 1 if (deep or k < 4) else 11))
     tasks.append((2, (1e9, 1e9 + 0.1, 1e9 + 0.2), 6 if deep else 5, 7))      # large offset, small spread
     tasks.append((3, (1e9, 1e9 + 0.1, -1e9), 7 if deep else 6, 7))
+    # values supplied as narrow NumPy floats (whose squares leave the range of their own type) and mixed with Python floats
+    tasks.append((2, (np.float16(300), np.float16(-200), np.float16(0.5)), 5, 5))
+    tasks.append((3, (np.float16(300), np.float16(-250), 1.0), 6 if deep else 5, 5))
+    tasks.append((2, (np.float32(3e19), np.float32(-3e19), np.float32(1.5)), 5, 5))
     return tasks
 
 
